@@ -107,6 +107,17 @@ type StringWriter struct{ *Writer }
 
 func (s *StringWriter) WriteString(x string) (int, error) { return s.Writer.Write([]byte(x)) }
 
+// BufferLike is a Writer with the method set of *bufio.Writer and *bytes.Buffer (Write, WriteByte,
+// WriteString): code that special-cases "in-memory" writers by their methods meets it.
+type BufferLike struct{ *Writer }
+
+func (b *BufferLike) WriteString(x string) (int, error) { return b.Writer.Write([]byte(x)) }
+
+func (b *BufferLike) WriteByte(c byte) error {
+	_, err := b.Writer.Write([]byte{c})
+	return err
+}
+
 // Shaped returns w dressed with the optional interface named by shape ("" = plain io.Writer).
 func Shaped(w *Writer, shape string) io.Writer {
 	switch shape {
@@ -116,6 +127,8 @@ func Shaped(w *Writer, shape string) io.Writer {
 		return &FlushWriter{Writer: w, FlushErr: true}
 	case "stringwriter":
 		return &StringWriter{w}
+	case "bufferlike":
+		return &BufferLike{w}
 	}
 	return w
 }
